@@ -136,3 +136,16 @@ Fixpoint walk (pg : prog) (evs : list event) (n : nat) : walk_result :=
       | _ => WMismatch n
       end
   end.
+
+(** ** [PieceSolver::solve]: the shared counters, one update and one progress line per piece. *)
+Record counters := { c_success : nat; c_failed : nat; c_fault : nat; c_total : nat }.
+Definition count (c : counters) (o : outcome) : counters :=
+  match o with
+  | Success => {| c_success := S (c_success c); c_failed := c_failed c; c_fault := c_fault c; c_total := c_total c |}
+  | Failed => {| c_success := c_success c; c_failed := S (c_failed c); c_fault := c_fault c; c_total := c_total c |}
+  | Fault => {| c_success := c_success c; c_failed := c_failed c; c_fault := S (c_fault c); c_total := c_total c |}
+  | PanicO => c
+  end.
+(** The progress lines printed: the counters after each piece. *)
+Fixpoint progress (c : counters) (os : list outcome) : list counters :=
+  match os with [] => [] | o :: r => count c o :: progress (count c o) r end.
